@@ -59,6 +59,7 @@ def dispatch (op : String) (args impl : List String) : Verdict :=
   | "traj" => opTraj args impl
   | "yawq" => opYawq args impl
   | "facc" => opFacc args impl
+  | "faccseq" => opFaccSeq args impl
   | "walk" => opWalk args impl
   | "find" => opFind args impl
   | _ => .badCase s!"unknown op {op}"
